@@ -94,7 +94,7 @@ template <typename Other>
 fcppt::shared_ptr<Type, Deleter> &
 fcppt::shared_ptr<Type, Deleter>::operator=(fcppt::shared_ptr<Other, Deleter> const &_other)
 {
-  this->impl_ = _other.impl;
+  this->impl_ = _other.impl_;
 
   return *this;
 }
